@@ -177,6 +177,12 @@ type PUnbond struct {
 	V  string  `json:"v"`
 	Hs []int64 `json:"hs"` // creation heights of the unbonding entries
 }
+type PRedel struct {
+	D   string `json:"d"`
+	Src string `json:"src"`
+	Dst string `json:"dst"`
+	N   int64  `json:"n"` // number of redelegation entries
+}
 type PVal struct {
 	V      string `json:"v"`
 	Shares int64  `json:"shares"`
@@ -219,6 +225,7 @@ type State struct {
 	Delegs    []PDeleg         `json:"delegs"`
 	Vals      []PVal           `json:"vals"`
 	Unbond    []PUnbond        `json:"unbond"`
+	Redel     []PRedel         `json:"redel"`
 	Vol       string           `json:"vol"` // process-global of the staking hooks ("" without the verif hooks, "0" when clear)
 	Inexact   []string         `json:"inexact"`
 	Junk      []string         `json:"junk"` // undecodable keys found under the node module's prefixes
@@ -482,6 +489,16 @@ func (c *Chain) Project() State {
 				pu.Hs = append(pu.Hs, e.CreationHeight)
 			}
 			s.Unbond = append(s.Unbond, pu)
+		}
+	}
+	s.Redel = []PRedel{}
+	for _, n := range c.BalanceNames() {
+		if strings.HasPrefix(n, "m_") {
+			continue
+		}
+		addr := sdk.MustAccAddressFromBech32(c.Concrete(n))
+		for _, r := range a.StakingKeeper.GetRedelegations(ctx, addr, 100) {
+			s.Redel = append(s.Redel, PRedel{D: n, Src: c.Name(r.ValidatorSrcAddress), Dst: c.Name(r.ValidatorDstAddress), N: int64(len(r.Entries))})
 		}
 	}
 	sort.Strings(s.Inexact)
